@@ -371,6 +371,10 @@ def compare(impl, model, fields_by_kind):
                 continue  # the model does not speak about this field
             if va != vb:
                 mism.append("%s %s field %s: impl=%s model=%s" % (kind, a[1], f, str(va)[:200], str(vb)[:200]))
+        # the payload of a JSON call recomputed by the model itself (document, matchers, options) must agree with the one the
+        # harness resolved with the library's matcher and rendering code - whatever fields the property compares
+        if kind == "obs" and a[2].get("jpre") == "1" and b[2].get("jpre") == "0":
+            mism.append("obs %s: the model's own rendering of the JSON call (document + matchers + options) differs from the payload resolved by the library" % a[1])
     return mism
 
 
